@@ -247,6 +247,7 @@ EXCL_TYPES = [
     ("[]Aux", "named-struct-slice", (), "type Aux struct {\n\tQ int32\n\tR *string\n}\n\n"),
     ("aux1", "embedded-unexported-struct", (), "type aux1 struct {\n\tRev int32\n\tBy  string\n}\n\n"),
     ("Audit", "embedded-exported-struct-dash-tagged", (), "type Audit struct {\n\tRev int32\n\tBy  *string\n}\n\n"),
+    ("int32", "second-name-in-a-column-declaration", (), ""),
     ("time.Time", "qualified", ("time",), ""),
     ("*time.Duration", "qualified", ("time",), ""),
 ]
@@ -321,6 +322,8 @@ def c14_pairs(D, tier, seed):
                     how = "embedded-unexported"
                     if any("embedded-unexported" in d for d in desc):
                         continue  # one embedded aux1 per program (a second one would be a duplicate field)
+                if cls == "second-name-in-a-column-declaration":
+                    how = "joined"
                 if cls == "embedded-exported-struct-dash-tagged":
                     how = "embedded-dash"
                     if any("embedded-dash" in d for d in desc):
@@ -328,6 +331,11 @@ def c14_pairs(D, tier, seed):
                 ss = structs_of(dec)
                 path, fl = ss[rnd.randrange(len(ss))]
                 pos = rnd.randint(0, len(fl))
+                if how == "joined":
+                    cands = [(p_, i_ + 1) for p_, fl_ in ss for i_, x_ in enumerate(fl_) if x_[0] == "leaf"]
+                    if not cands:
+                        continue
+                    path, pos = cands[rnd.randrange(len(cands))]
                 dec = replace_at(dec, path, lambda l, pos=pos, how=how, gt=gt: l[:pos] + [("excluded", how, gt)] + l[pos:])
                 imports.update(imp)
                 if ax and ax not in aux:
@@ -342,7 +350,18 @@ def c14_pairs(D, tier, seed):
             j = rnd.randint(i + 1, len(fl))
             dec = replace_at(dec, path, lambda l, i=i, j=j: l[:i] + [("embedded", l[i:j])] + l[j:])
             desc.append("embedded:depth%d:fields%d-%d-of-%d" % (len(path), i, j, len(fl)))
-        pairs.append(dict(base=base, dec=dec, desc=desc, imports=tuple(sorted(imports)), aux=aux))
+        topdown = rnd.random() < 0.4
+        if topdown:
+            desc.append("types-declared-top-down")
+        pairs.append(dict(base=base, dec=dec, desc=desc, imports=tuple(sorted(imports)), aux=aux, topdown=topdown))
+    # embedding chains (an embedded struct that itself embeds a struct), declared bottom-up and top-down
+    for i, td in enumerate((False, True, True)):
+        b0 = bases[(i * 101 + 7) % len(bases)]
+        inner = [("leaf", "r", "N91", "n91", "int32"), ("leaf", "o", "N92", "", "string")]
+        mid = [("leaf", "r", "N93", "n93", "int64")]
+        base = inner + mid + list(b0)
+        dec = [("embedded", [("embedded", list(inner), "Base")] + mid, "Meta")] + list(b0)
+        pairs.append(dict(base=base, dec=dec, desc=["embedded:depth0:chain-of-two", "types-declared-top-down" if td else "types-declared-bottom-up"], imports=(), aux="", topdown=td))
     # type reuse: one struct type both embedded in the root and used as the type of a group field (and of a second group)
     k = 0
     for gr in lab.REPS:
@@ -383,7 +402,7 @@ def c14_prepare(D, pid, cfg, W, tier, replay):
         for i, pr in enumerate(pairs):
             bn, dn = "b%04d" % i, "d%04d" % i
             bsrc = lab.emit(bn, pr["base"])
-            dsrc = lab.emit(dn, pr["dec"], imports=pr["imports"], extra=pr["aux"])
+            dsrc = lab.emit(dn, pr["dec"], imports=pr["imports"], extra=pr["aux"], topdown=pr.get("topdown", False))
             W.c14.append(dict(i=i, bn=bn, dn=dn, bsrc=bsrc, dsrc=dsrc, desc=pr["desc"], shape=lab.typed_notation(pr["base"]), dshape=lab.notation(pr["dec"])))
     import concurrent.futures as cf
     with cf.ThreadPoolExecutor(max_workers=os.cpu_count() or 4) as ex:
@@ -443,9 +462,10 @@ def c14_prepare(D, pid, cfg, W, tier, replay):
 
 def c14_key(c):
     """violation key for a decorated program that does not generate/compile: class + the transformation kinds involved."""
-    if c["desc"] and all(d.startswith("embedded:") and not d.startswith("embedded:depth0") for d in c["desc"]):
+    dd = [d for d in c["desc"] if not d.startswith("types-declared")]
+    if dd and all(d.startswith("embedded:") and not d.startswith("embedded:depth0") for d in dd):
         return "C14/%s/embedded-in-nested-struct" % c["dres"]["cls"]
-    kinds = sorted(set(":".join(d.split(":")[:3]) if d.startswith("excluded") else "embedded" for d in c["desc"]))
+    kinds = sorted(set(":".join(d.split(":")[:3]) if d.startswith("excluded") else "embedded" for d in c["desc"] if not d.startswith("types-declared")))
     return "C14/%s/%s" % (c["dres"]["cls"], "+".join(kinds))
 
 
@@ -538,6 +558,11 @@ def c15_shapes(tier, seed):
             else:
                 out.append(L(rnd.choice("ro")))
         return out
+    # a leaf and a group that share a name under different parents (group names are unique among groups, as the property requires)
+    fixed.append([("leaf", "r", "Id", "id", "int64"), ("leaf", "r", "Address", "address", "string"),
+                  ("group", "r", [("leaf", "o", "Email", "email", "string"),
+                                  ("group", "o", [("leaf", "r", "Street", "street", "string"), ("leaf", "o", "Floor", "floor", "int32")], "Address", "address")], "Contact", "contact"),
+                  ("leaf", "o", "Balance", "balance", "float64")])
     n = 400 if tier == "thorough" else 32
     shapes = list(fixed)
     while len(shapes) < n:
@@ -606,6 +631,7 @@ def c15_mid(D, pid, cfg, W, tier, env):
     outdir = os.path.join(W.dir, "c15")
     pg = os.path.join(W.bin, "parquetgen")
     regen = []
+    prev_file = None
     W.c15_regen_fail = []
     for c in W.c15:
         if not c["res"]["ok"]:
@@ -616,6 +642,14 @@ def c15_mid(D, pid, cfg, W, tier, env):
         name = "g" + c["name"][1:] if c["name"][0] == "s" else "h" + c["name"][1:]
         d = os.path.join(W.h, "lab", name)
         os.makedirs(d, exist_ok=True)
+        # the output directory is not fresh: an earlier run for a different (here: the previous) file left its output there
+        if prev_file is not None:
+            try:
+                subprocess.run([pg, "-parquet", prev_file, "-type", "Rec", "-package", name, "-struct-output", "generated_struct.go", "-output", "parquet.go"], cwd=d,
+                               stdout=subprocess.PIPE, stderr=subprocess.STDOUT, text=True, timeout=120, errors="replace")
+            except subprocess.TimeoutExpired:
+                pass
+        prev_file = f
         try:
             p = subprocess.run([pg, "-parquet", f, "-type", "Rec", "-package", name, "-struct-output", "generated_struct.go", "-output", "parquet.go"], cwd=d,
                                stdout=subprocess.PIPE, stderr=subprocess.STDOUT, text=True, timeout=120, errors="replace")
@@ -711,6 +745,6 @@ def register(PROPS):
         replay="TestReplayC15",
         rule="programs: 7 fixed shapes + seeded random shapes (32 quick / 400 thorough): 1..4 fields per struct, each a leaf {required, optional} of int32/string/bool/int64/float64/float32 or a group "
              "{required, optional} nested to depth 3; all columns tagged with unique identifiers (every third program uses names with an underscore, e.g. g_3.n_4). Per program: up to 40 structurally distinct records written with the source type (codec rotates), "
-             "parquetgen -parquet on the file, compile, then: notation and column paths of the regenerated Rec (by reflection) == source; regenerated reader returns the written values. "
+             "parquetgen -parquet on the file - into a directory that already holds the output of a run for the previous program's file - compile, then: notation and column paths of the regenerated Rec (by reflection) == source; regenerated reader returns the written values. "
              "evaluations = records compared; non-trivial = shape with a group at depth >= 2 or an optional group; distinct by program.",
     )
